@@ -137,8 +137,19 @@ func genScenario(r *sx.Rng, focus string) sx.Tree {
 		}
 		ops = append(ops, opSetOwned(o))
 	}
+	// a second outage while the first request of a partition is still being worked: a second, disjoint request for the
+	// same partition waits in the tracker and becomes the active one when the first completes
+	queued := []win{}
+	if r.Chance(25) {
+		w := wins[r.Intn(len(wins))]
+		f2 := w.t + r.Range(1, 40)
+		queued = append(queued, win{w.p, f2, f2 + r.Range(1, 20)})
+	}
 	requests := func() {
 		for _, w := range wins {
+			ops = append(ops, opRequest(w.p, w.f, w.t))
+		}
+		for _, w := range queued {
 			ops = append(ops, opRequest(w.p, w.f, w.t))
 		}
 	}
@@ -319,6 +330,9 @@ func genScenario(r *sx.Rng, focus string) sx.Tree {
 			if r.Chance(92) {
 				ops = append(ops, opPump(w.p, w.t-w.f+3))
 			}
+		}
+		for _, w := range queued {
+			ops = append(ops, opPump(w.p, r.Range(1, 4)), opPump(w.p, w.t-w.f+3))
 		}
 	}
 	second := 15
